@@ -151,6 +151,25 @@ def oracle(ctx, U, LA, D, rng, base):
             if np.linalg.cond(want[k]) < 1e8 and _nn(np.abs(bi[k] - Wp).max()) > 1e-8 * (1 + np.abs(Wp).max()):
                 ctx.fail('get_block_diag/inverse', 'block %d (blocksize %d) is not the (pseudo-)inverse' % (k, bs), base)
                 break
+        # the same blocks in other units (exact powers of two): the pseudo-inverse scales with 1/s, including the
+        # decision which singular values count as zero (relative to the largest one)
+        for sc in (2.0 ** -45, 2.0 ** 40):
+            bis = U.get_block_diag(sp.csr_array(D * sc), blocksize=bs, inv_flag=True)
+            for k in range(nb):
+                if np.linalg.cond(want[k]) < 1e8 and _nn(np.abs(bis[k] * sc - bi[k]).max()) > 1e-8 * (1 + np.abs(bi[k]).max()):
+                    ctx.fail('get_block_diag/inverse/not-scale-invariant', 'block %d (blocksize %d): pinv(s B) != pinv(B)/s for s = %g' % (k, bs, sc), base)
+                    break
+        # BSR input: the call order on ONE matrix object must not matter (the routine caches on the object)
+        if bs > 1:
+            Ab_ = sp.bsr_array(D, blocksize=(bs, bs))
+            i1 = U.get_block_diag(Ab_, blocksize=bs, inv_flag=True)
+            d1 = U.get_block_diag(Ab_, blocksize=bs, inv_flag=False)
+            i2 = U.get_block_diag(Ab_, blocksize=bs, inv_flag=True)
+            if np.abs(np.asarray(d1) - want).max() != 0:
+                ctx.fail('get_block_diag/after-inverse-call', 'blocksize %d: diagonal blocks requested after the inverse blocks are wrong' % bs, base)
+            if _nn(np.abs(np.asarray(i1) - np.asarray(i2)).max()) > 0 or _nn(np.abs(np.asarray(i1) - bi).max()) > 1e-12 * (1 + np.abs(bi).max()):
+                ctx.fail('get_block_diag/inverse/call-order', 'blocksize %d: inverse blocks depend on earlier calls' % bs, base)
+            ctx.count('oracle:block-diag-call-order')
     # symmetric rescaling to unit diagonal
     S = D + D.T + np.diag([rng.choice([2.0, 3.0, 5.0]) for _ in range(n)]) * 3
     d = np.diag(S)
@@ -278,13 +297,17 @@ def spectral(ctx, LA):
                 ctx.fail('approximate_spectral_radius/exceeds', 'estimate %.12g > rho %.12g' % (est, rho), case)
             if est < 0.9 * rho:
                 ctx.fail('approximate_spectral_radius/below-0.9', 'estimate %.12g < 0.9 * %.12g' % (est, rho), case)
-        # condition estimate on small dense matrices
+        # condition estimate on small dense matrices (every third round: structured matrices whose extreme eigenvectors are
+        # special with respect to simple start vectors -- 1D Poisson, a periodic (circulant) stencil)
         m = rng.choice([2, 3, 5, 7])
         for sym in (True, False):
             M = gen.poisson_like(rng, m)
-            if not sym:
+            if it % 3 == 1:
+                from pyamg.gallery import poisson as _pois
+                M = _pois((10,), format='csr').toarray() if sym else (3.0 * np.eye(8) - np.roll(np.eye(8), 1, 0) - np.roll(np.eye(8), -1, 0))
+            elif not sym:
                 M = M + np.triu(np.array([[rng.choice([0, 0.5, -0.25]) for _ in range(m)] for _ in range(m)]), 1)
-            if rng.random() < 0.3:
+            if it % 3 != 1 and rng.random() < 0.3:
                 M = M.astype(complex) * np.exp(0.3j) if not sym else M
             true = np.linalg.cond(M)
             if not np.isfinite(true) or true > 1e6:
